@@ -132,6 +132,8 @@ func runCase(c string) string {
 		return runCfgGun(f)
 	case "gjson":
 		return runGJSON(f)
+	case "ammo":
+		return runAmmo(f)
 	case "hscen":
 		return runHScen(f)
 	case "gshoot":
@@ -264,6 +266,7 @@ func gen(r *vh.Rand, tier string) []string {
 	}
 	out = append(out, genGuns(r, tier)...)
 	out = append(out, genCfgGuns(r, tier)...)
+	out = append(out, genAmmo(r, tier)...)
 	return out
 }
 
